@@ -27,8 +27,10 @@ import numpy as np
 RULE = ('API table of numerical routines (info_theory, msm, tpt, cluster, libdist, libinfo, RaggedArray) x '
         'seeded argument sets (always including the masks\' edge cases: zeros in p, empty joint-count blocks, '
         'zero rows, empty/length-1 inputs, every container kind) x perturbations {repeat, OpenMP threads '
-        '1/2/7/16, freed NaN/inf/1.0 buffers of every small-cache size and 128..1024 doubles, '
-        'MALLOC_PERTURB_ 1/85/170 subprocess (thorough), worker counts}; results compared bit for bit '
+        '1/2/7/16, freed NaN/inf/1.0 buffers of every small-cache size and 128..1024 doubles, poisoning '
+        'allocator (numpy data-memory handler whose malloc fills each block with NaN/inf/1.0/0xAA), '
+        'MALLOC_PERTURB_ 1/85/170 subprocess (thorough), worker counts, caller-supplied out buffers '
+        'pre-filled with NaN/inf/7}; results compared bit for bit '
         '(dtype, shape, bytes); argument bytes snapshotted before/after; a case is non-trivial when the call '
         'returns a value (not an exception); distinct by (routine, canonical arguments)')
 ASSUMPTIONS = [
@@ -41,6 +43,8 @@ ASSUMPTIONS = [
     'through an alias other than the numpy module name or a from-import is not seen',
 ]
 TRUSTED_EXTRA = [
+    'C19 poisoning allocator: 60 lines of C (NEP 49 PyDataMem_Handler) compiled with gcc at first use; a defect '
+    'there can only cause false alarms or missed perturbations, not a false proof',
     'C19 translator: ast walk for np.<ufunc>(..., where=...) calls and np.empty/empty_like/ndarray allocations; '
     'regular expressions for compound assignments in .pyx kernels',
 ]
@@ -823,6 +827,7 @@ def g_joint_counts(rng, big):
     out.append(('mixed-dtypes', [_states(rng, T, F, n, 'int16'), _states(rng, T, F, n, 'int64')], {}))
     out.append(('1d', [N(rng.integers(0, n, size=T + 1))], {}))
     out.append(('many-features', [_states(rng, 40, 9, 3)], {}))
+    out.append(('long-trajectory', [_states(rng, int(rng.integers(3000, 9000)), 6, 4, 'int32')], {}))
     return out
 
 
@@ -1162,6 +1167,12 @@ def g_dist(kind):
             else:
                 X, y = _points(rng, n, d, dt), N(decode(_points(rng, 1, d, dt))[0])
             out.append((dt, [X, y], {}))
+        # enough work per thread for the 7- and 16-thread teams to really overlap
+        n, d = int(rng.integers(4000, 12000)), int(rng.integers(8, 24))
+        if kind == 'hamming':
+            out.append(('large-n', [N(rng.integers(0, 3, size=(n, d))), N(rng.integers(0, 3, size=d))], {}))
+        else:
+            out.append(('large-n', [_points(rng, n, d), N(rng.normal(size=d))], {}))
         out.append(('no-rows', [N(np.zeros((0, 3)), dts[0]), N(np.zeros(3), dts[0])], {}))
         out.append(('dim-mismatch-rejected', [N(np.zeros((2, 3)), dts[0]), N(np.zeros(2), dts[0])], {}))
         return out
@@ -1553,6 +1564,16 @@ def check_argset(ctx, routine, label, args, kwargs, reps=16, perturbations=None)
                           dict(case, perturbation={'kind': 'snapshot', 'arg': k},
                                before=_decode_canon(before['kwargs'][k]), after=_decode_canon(after['kwargs'][k])))
             return base
+    # a caller-supplied output buffer is write-only: its previous content must not show in the result
+    if routine == 'libdist.with_out' and 'ok' in base:
+        kind = args[0]['v'].rsplit('.', 1)[1]
+        ref, _, _ = call_once('libdist.' + kind, args[1:3], {})
+        ctx.tag('perturbation=out-content')
+        if 'ok' not in ref or base['ok'][1] != ref['ok']:
+            ctx.violation('libdist.%s(X, y, out=buf) depends on what buf held before the call' % kind,
+                          dict(case, perturbation={'kind': 'out-content'}, baseline=_short(ref),
+                               perturbed=_short({'ok': base['ok'][1]})))
+            return base
     for p in (perturbations if perturbations is not None else perturbation_list(ctx.thorough, routine)):
         got, _, _ = run_perturbed(routine, args, kwargs, p, reps)
         ctx.tag('perturbation=' + p['kind'])
@@ -1792,14 +1813,14 @@ def run(ctx):
     if bad:
         ctx.note('rejected_source_sites', bad)
     reps = 16 if not ctx.thorough else 32
-    rounds = ctx.n(1, 6)
+    rounds = ctx.n(2, 8)
     jobs = []
     order = sorted(ROUTINES)
     for rd in range(rounds):
         for routine in order:
             for label, args, kwargs in GENS[routine](rng, ctx.thorough and rd % 2 == 1):
                 check_argset(ctx, routine, label, args, kwargs, reps=reps)
-                if len(jobs) < 4000:
+                if len(jobs) < 4000 and len(json.dumps(args)) < 200000:
                     jobs.append({'routine': routine, 'label': label, 'args': args, 'kwargs': kwargs})
     # a site the obligations reject: concentrate the heap histories on the routines that reach it
     for routine in targets:
@@ -1829,6 +1850,8 @@ def run(ctx):
 
 
 def replay(ctx, case):
+    _controller()
+    case = case.get('case', case)
     if 'op' in case:                                    # a model-correspondence request
         r = ctx.driver([{k: v for k, v in case.items() if k not in ('model', 'impl', 'numpy', 'out_mode')}])[0]
         if r != case.get('model'):
